@@ -226,7 +226,9 @@ func (c *caseT) realiseUC(p *ucPlan, cert bool, r *vh.RNG) ([]byte, []voteTruth,
 
 // realise produces all concrete objects from the plans.
 func (c *caseT) realise(r *vh.RNG) *truth {
-	c.proofs = map[string]proofOut{}
+	if c.proofs == nil {
+		c.proofs = map[string]proofOut{}
+	}
 	t := &truth{}
 	lbRoot := common.BytesToHash([]byte("main-lookback"))
 	certRoot := common.BytesToHash([]byte("cert-lookback"))
